@@ -23,6 +23,10 @@ def handleArith : List Sexp → Sexp
     match helperOfName h, Val.ofSexp a, Val.ofSexp b with
     | some h, some a, some b => exceptToSexp (refSem h a b)
     | _, _, _ => .list [.atom "bad-request"]
+  | [.atom "arithw", .atom h, a, b] =>
+    match helperOfName h, Val.ofSexp a, Val.ofSexp b with
+    | some h, some a, some b => exceptToSexp (refSemW h a b)
+    | _, _, _ => .list [.atom "bad-request"]
   | [.atom "neg", a] =>
     match Val.ofSexp a with
     | some a => match negateVal a with
@@ -58,6 +62,6 @@ end ExprModel.Drv
 namespace ExprModel.Drv
 /-- stage table exported to Driver.lean: (request tag, handler receiving the whole request list) -/
 def arithHandlers : List (String × (List Sexp → Sexp)) :=
-  [("arith", handleArith), ("neg", handleArith), ("combined", handleArith), ("toint", handleArith),
+  [("arith", handleArith), ("arithw", handleArith), ("neg", handleArith), ("combined", handleArith), ("toint", handleArith),
    ("tofloat", handleArith), ("pow", handleArith)]
 end ExprModel.Drv
